@@ -45,6 +45,21 @@ def _mk():
 
 _mk()
 
+# a scripted workload (trace) in which two batch containers reach their operator boundary in the same tick while two
+# queries wait: both are preempted together, their write-outs end together, both are re-queued in one round and resumed
+# one after the other - the order of resumption must come from the workload, not from hashing or container numbers
+CONFIGS["priority-preempt-pair"] = dict(
+    duration=4.6, ticks_per_second=100, scheduler_algo="priority", num_pools=1, cpus_per_pool=3, ram_gb_per_pool=30, multi_operator_containers=True,
+    _csv="""pipeline_id,arrival_seconds,priority,operator_id,parents,baseline_cpu_seconds,cpu_scaling,memory_gb,storage_read_gb
+A,0.0,BATCH_PIPELINE,op1,,1.0,const,,2
+A,,,op2,op1,2.0,const,,2
+B,0.0,BATCH_PIPELINE,op1,,1.0,const,,2
+B,,,op2,op1,0.5,const,,2
+C,0.0,BATCH_PIPELINE,op1,,10.0,const,,2
+Q1,0.5,QUERY,op1,,0.5,const,,2
+Q2,0.5,QUERY,op1,,1.5,const,,2
+""")
+
 
 def main():
     req = json.loads(sys.argv[1])
@@ -100,7 +115,14 @@ def main():
         Executor.run_one_tick = execu
         Scheduler.run_one_tick = sched
         try:
-            st = run_simulator(dict(CONFIGS[name]))
+            cfg = dict(CONFIGS[name])
+            csv_text = cfg.pop("_csv", None)
+            if csv_text is not None:
+                import io
+                from eudoxia.workload.csv_io import CSVWorkloadReader
+                st = run_simulator(cfg, workload=CSVWorkloadReader(io.StringIO(csv_text)).get_workload(cfg["ticks_per_second"]))
+            else:
+                st = run_simulator(cfg)
             stats = canon_stats(st)
             err = None
         except Exception as e:
